@@ -1059,4 +1059,7 @@ class Mgm2Computation(VariableComputation):
 
     @lru_cache(maxsize=512)
     def _compute_cost(self, **kwargs):
-        return assignment_cost(kwargs, self._constraints)
+        # The local cost includes the costs of the variables' values, if any.
+        return assignment_cost(
+            kwargs, self._constraints, consider_variable_cost=True
+        )
